@@ -355,6 +355,7 @@ def run(chk: Check) -> None:
     run_suppression_reason(chk, ix)
     run_import_diagnosis_has_cached_standins(chk, ix)
     run_lookup_memo_independent_of_caller(chk, ix)
+    run_added_packages_include_namespace_ones(chk, ix)
     # the cached interface must come back as it was written (bound from C11: R11.11, None is encoded exactly)
     from ..resolve import Resolver
     from .c11 import run_none_encoding
@@ -808,3 +809,31 @@ def run_lookup_memo_independent_of_caller(chk: Check, ix) -> None:
             r20.violation(key, f.loc(a), f"the store is control-dependent on {sorted(dep)}, which is not part of the memo key {sorted(key_names)}: the first caller's flag decides what every later caller is told (warm: [import-not-found]; cold: [import] with the 'running mypy in a subpackage' note)")
     if n < 2:
         raise AnalysisError(f"find_module: only {n} stores into self.results found")
+
+
+def run_added_packages_include_namespace_ones(chk: Check, ix) -> None:
+    """R02.21: 'this path is a package' means an __init__ file or a directory, wherever build.py asks."""
+    r21 = chk.rule("R02.21", "the module finder answers a lookup of a package with the path of its `__init__.py[i]` or, for a namespace package, with the directory itself. build.py has two places that classify such a path as 'a package': State construction (`is_package`-style tests used when a module is found) and exist_added_packages(), which decides whether a previously suppressed import has become importable and its importers must be re-processed. exist_added_packages() accepts both shapes (a base-name test on `__init__` and a directory test on the same path): with the first alone an importer cached while the namespace package was invisible stays fresh and never gets the submodule as a dependency", floor=1)
+    b = ix.module("mypy.build")
+    f = b.functions.get("exist_added_packages")
+    if f is None:
+        raise AnalysisError("build.exist_added_packages not found")
+    rets = [r for r in ast.walk(f.node) if isinstance(r, ast.Return) and isinstance(r.value, ast.Constant) and r.value.value is True]
+    par = f.module.parents()
+    from ..cfg import branch_conditions
+    shapes = set()
+    for r in rets:
+        pos, _ = branch_conditions(par, f.node, r)
+        for t in pos:
+            tx = norm(t)
+            if "__init__" in tx and "basename" in tx:
+                shapes.add("init-file")
+            if "isdir(" in tx:
+                shapes.add("directory")
+    key = "exist_added_packages: a found path counts as a package when it is an __init__ file or a directory"
+    if shapes >= {"init-file", "directory"}:
+        r21.ok(key, f.loc())
+    elif "init-file" not in shapes:
+        raise AnalysisError(f"exist_added_packages: no `return True` under a base-name test on __init__ found ({sorted(shapes)})")
+    else:
+        r21.violation(key, f.loc(rets[0]) if rets else f.loc(), "only the `__init__.py[i]` shape returns True: for a namespace package (find_module returns the directory) the importers are not invalidated; `from ns import mod` cached while `ns` was invisible keeps reporting 'Module \"ns\" has no attribute \"mod\"' on every later run")
